@@ -45,7 +45,7 @@ def check(case, ctx):
     except DeclarationError as e:
         ctx.skip_undeclarable(None, e)
         return
-    v = values.realize(case["value"])
+    v = substgen.realize(case)
     try:
         R = substitute(S, v)
     except SubstitutionError:
